@@ -447,6 +447,11 @@ func runC12(c *Ctx) {
 		var bad []string
 		for _, p := range pops {
 			ok := false
+			if ir.UnderMissingInput(p) {
+				// dropping an entry that is not a job at all (the type
+				// assertion on it failed) loses no job
+				continue
+			}
 			for q := range arm {
 				if ir.EdgeDominates(fn, q, p.Block()) {
 					ok = true
@@ -1112,6 +1117,8 @@ func (c *Ctx) verdictPerBatch() {
 		}
 		okQ = hasSend && hasQuit
 	})
-	sends := find(q, func(in ssa.Instruction) bool { _, ok := in.(*ssa.Send); return ok })
+	// (the "no" of a guard clause on an argument that must be present is
+	// not the answer to a batch)
+	sends := find(q, func(in ssa.Instruction) bool { _, ok := in.(*ssa.Send); return ok && !ir.InGuardClause(in) })
 	c.verdict(okQ && len(sends) == 1, c.nm(q)+" | batch handed to the dispatcher or answered with the shutdown error", c.P.Pos(q.Pos()), "select{newBatches<-b | <-quit: errChan<-ErrWorkManagerShuttingDown}", "Query no longer guarantees an answer when the dispatcher is gone")
 }
